@@ -19,7 +19,7 @@ theorem symUser_append {syms : List Symbol} {new : List Symbol} {sid : SymId} {r
   rw [List.getElem?_append_left hl]; exact h
 
 theorem InstOk.mono {syms : List Symbol} {new : List Symbol} {I : Inst} (h : InstOk syms I) : InstOk (syms ++ new) I := by
-  refine ⟨h.unboundLe, h.mapDom, ?_⟩
+  refine ⟨h.unboundLe, h.mapDom, h.mapKeys, ?_⟩
   intro hk
   obtain ⟨sym, hs, ht⟩ := h.arity hk
   exact ⟨sym, by rw [List.getElem?_append_left (getElem?_lt_of_some hs)]; exact hs, ht⟩
@@ -228,8 +228,9 @@ theorem InvH.addTempl {syms : List Symbol} {doc : Doc} (h : InvH syms doc) (name
     rcases map_append_split _ _ _ _ _ hr with ho | ⟨he, hx⟩
     · exact Or.inl ho
     · right; subst hx
-      refine ⟨Nat.le_refl _, ?_, ?_⟩
+      refine ⟨Nat.le_refl _, ?_, ?_, ?_⟩
       · intro x; simp [mkTempl, mkTemplInst]
+      · simp [mkTempl, mkTemplInst]
       · intro _; exact ⟨_, List.getElem?_concat_length, by cases isTA <;> simp [mkTempl, mkTemplInst]⟩
   · intro hl; cases isTA <;> simp [STy.isLocation] at hl
   · intro hl; cases isTA <;> simp [STy.isBranchpoint] at hl
@@ -365,7 +366,7 @@ theorem InvH.setTy {syms : List Symbol} {doc : Doc} (h : InvH syms doc) (sid : S
       · exact absurd hl (hnotinst a).2
   · intro r I hr
     have ho := h.insts r I hr
-    refine ⟨ho.unboundLe, ho.mapDom, ?_⟩
+    refine ⟨ho.unboundLe, ho.mapDom, ho.mapKeys, ?_⟩
     intro hk
     obtain ⟨sym, hs, ht⟩ := ho.arity hk
     refine ⟨sym, ?_, ht⟩
@@ -554,11 +555,41 @@ theorem mem_bindArgs (m : List (SymId × Expr)) (ps : List SymId) (es : List Exp
         · exact Or.inl (Or.inr h)
         · exact Or.inr h
 
+/-- `mapInsert` is `std::map::operator[]=`: it never creates a second entry for a key -/
+theorem keys_mapInsert (m : List (SymId × Expr)) (k : SymId) (v : Expr) (h : (m.map Prod.fst).Nodup) :
+    ((mapInsert m k v).map Prod.fst).Nodup := by
+  unfold mapInsert
+  split
+  · have : (m.map (fun kv => if kv.1 = k then (k, v) else kv)).map Prod.fst = m.map Prod.fst := by
+      rw [List.map_map]
+      apply List.map_congr_left
+      intro kv _
+      by_cases hk : kv.1 = k <;> simp [hk]
+    rw [this]; exact h
+  · rename_i hany
+    rw [List.map_append, List.map_cons, List.map_nil]
+    refine List.nodup_append.mpr ⟨h, by simp, ?_⟩
+    intro a ha b hb hab
+    simp only [List.mem_singleton] at hb
+    subst hb; subst hab
+    apply hany
+    obtain ⟨kv, hkv, hfst⟩ := List.mem_map.mp ha
+    exact List.any_eq_true.mpr ⟨kv, hkv, by simp [hfst]⟩
+
+theorem keys_bindArgs (m : List (SymId × Expr)) (ps : List SymId) (es : List Expr) (h : (m.map Prod.fst).Nodup) :
+    ((bindArgs m ps es).map Prod.fst).Nodup := by
+  induction ps generalizing m es with
+  | nil => cases es <;> simpa [bindArgs] using h
+  | cons p ps ih =>
+    cases es with
+    | nil => simpa [bindArgs] using h
+    | cons e es => simp only [bindArgs]; exact ih _ _ (keys_mapInsert m p e h)
+
 theorem inv_addInstance {s : BState} (h : Inv s) (lsc : Bool) (name : String) (old : Inst) (ps : List SymId) (exprs : List Expr)
     (hold : InstOk s.syms old) (hlen : exprs.length = old.unbound) : Inv (s.addInstance lsc name old ps exprs) := by
   unfold BState.addInstance
   refine InvH.addInst h _ _ rfl rfl ?_ (by cases lsc <;> rfl) (by cases lsc <;> rfl) ?_
-  · refine ⟨by simp, ?_, ?_⟩
+  · refine ⟨by simp, ?_, keys_bindArgs _ _ _ hold.mapKeys, ?_⟩
     · intro x
       simp only [List.drop_left, mem_bindArgs, hlen, hold.mapDom x]
       constructor
@@ -577,7 +608,7 @@ theorem inv_addInstance {s : BState} (h : Inv s) (lsc : Bool) (name : String) (o
 
 theorem inv_addProcess {s : BState} (h : Inv s) (inst : Inst) (hold : InstOk s.syms inst) : Inv (s.addProcess inst) := by
   unfold BState.addProcess
-  refine InvH.addInst h _ _ rfl rfl ⟨hold.unboundLe, hold.mapDom, fun hk => absurd rfl hk⟩ ?_ ?_ ?_
+  refine InvH.addInst h _ _ rfl rfl ⟨hold.unboundLe, hold.mapDom, hold.mapKeys, fun hk => absurd rfl hk⟩ ?_ ?_ ?_
   · simp only; split <;> rfl
   · simp only; split <;> rfl
   · intro a ha
